@@ -1,6 +1,7 @@
 package main
 
 import (
+	"vh/c03worker"
 	. "vh/lib"
 	"vh/lts"
 	"vh/reghist"
@@ -8,6 +9,10 @@ import (
 )
 
 func main() {
-	Main(map[string]func(Val) Val{"C03_lts": lts.Run, "C03_transports": transports.Run,
-		"C03_reg": reghist.History}) // registry histories with the per-stream end vector (shared with cmd/c05)
+	cmds := map[string]func(Val) Val{"C03_lts": lts.Run, "C03_transports": transports.Run}
+	for name, f := range c03worker.Commands() {
+		cmds[name] = f
+	}
+	cmds["C03_reg"] = reghist.History // registry histories with the per-stream end vector (shared with cmd/c05)
+	Main(cmds)
 }
